@@ -48,10 +48,11 @@ def run(ctx, spec, out):
         h.both({"op": "daemon", "config": cfg, "backends": [conn(c) for c in conns], "listen": listen})
         steps = [{"kind": "start", "state": h.both({"op": "dstate"}), "conns": json.loads(json.dumps(conns)), "listen": list(listen), "queries": observe(h, listen, conns), "closed": []}]
         nextid = len(conns)
-        for si in range(rng.choice([2, 4, 6])):
+        script = ["sources2", "noop", "trim", "noop", "sources2", "trim"] if wi == 0 else None
+        for si in range(len(script) if script else rng.choice([2, 4, 6])):
             old_conns, old_listen = json.loads(json.dumps(conns)), list(listen)
-            kind = rng.choice(["noop", "add", "remove", "rename", "resource", "reorder", "listener", "noop", "readd", "multi"])
-            edits = [kind] if kind != "multi" else [rng.choice(["add", "remove", "rename", "resource", "reorder", "listener"]) for _ in range(2)]
+            kind = script[si] if script else rng.choice(["noop", "add", "remove", "rename", "resource", "reorder", "listener", "noop", "readd", "multi", "sources2", "trim", "trim"])
+            edits = [kind] if kind != "multi" else [rng.choice(["add", "remove", "rename", "resource", "reorder", "listener", "sources2", "trim"]) for _ in range(2)]
             for e in edits:
                 if e == "add" and len(conns) < 4:
                     conns.insert(rng.randrange(len(conns) + 1), {"id": "b%d" % nextid, "name": "Backend %d" % nextid, "sources": ["self"]})
@@ -81,6 +82,23 @@ def run(ctx, spec, out):
                         c["sources"] = ["dead"]
                     else:
                         c["sources"] = ["self"]
+                elif e == "sources2":
+                    # a second address: a dead one before or behind the backend's own
+                    c = rng.choice(conns)
+                    if c["sources"] == ["self"] and not any(o["sources"] == ["other:" + c["id"]] for o in conns):
+                        # (the dead address behind the working one: which address a new peer tries first, and when it tries the
+                        # next, is a matter of its update loop's timing, not of the reload)
+                        c["sources"] = ["self", "dead"]
+                elif e == "trim":
+                    # the last of several addresses is taken away (the list only gets shorter)
+                    cands = [c for c in conns if len(c["sources"]) > 1]
+                    if cands:
+                        c = rng.choice(cands)
+                        c["sources"] = c["sources"][:-1]
+                    else:
+                        c = rng.choice(conns)
+                        if c["sources"] == ["self"] and not any(o["sources"] == ["other:" + c["id"]] for o in conns):
+                            c["sources"] = ["self", "dead"]
                 elif e == "reorder":
                     rng.shuffle(conns)
                 elif e == "listener":
